@@ -46,7 +46,37 @@ func genPlan(t *rapid.T, tier string) any {
 		p.Workers = rapid.IntRange(1, 2).Draw(t, "wideworkers")
 		maxKids, maxInit = 24, n
 	}
+	// burst plans: far more items queued at one time than any fixed small capacity a queue
+	// implementation might start with, then a complete drain
+	burst := !wide && rapid.IntRange(0, 9).Draw(t, "burst") == 0
+	if burst {
+		n = rapid.IntRange(66, 140).Draw(t, "burstitems")
+		p.Workers = rapid.IntRange(1, 3).Draw(t, "burstworkers")
+	}
 	for i := 0; i < n; i++ {
+		if burst {
+			var kids []int
+			if i == 0 && len(p.Initial) == 0 {
+				// all at once: either queued before Do starts, or added by the first call of f
+				if rapid.Bool().Draw(t, "burstbefore") {
+					for k := 0; k < n; k++ {
+						p.Initial = append(p.Initial, k)
+					}
+				} else {
+					p.Initial = []int{0}
+					for k := 1; k < n; k++ {
+						kids = append(kids, k)
+					}
+				}
+			} else if rapid.IntRange(0, 9).Draw(t, "burstkid") == 0 {
+				kids = []int{rapid.IntRange(0, n-1).Draw(t, "burstchild")}
+			}
+			p.Children = append(p.Children, kids)
+			p.Before = append(p.Before, 0)
+			p.After = append(p.After, rapid.IntRange(0, 1).Draw(t, "after"))
+			p.WaitFor = append(p.WaitFor, -1)
+			continue
+		}
 		// children may repeat, point backwards, at the item itself, or form cycles
 		mk := 3
 		if wide && rapid.IntRange(0, 5).Draw(t, "fanout") == 0 {
@@ -61,7 +91,9 @@ func genPlan(t *rapid.T, tier string) any {
 		}
 		p.WaitFor = append(p.WaitFor, w)
 	}
-	p.Initial = rapid.SliceOfN(rapid.IntRange(0, n-1), 0, maxInit).Draw(t, "initial")
+	if !burst {
+		p.Initial = rapid.SliceOfN(rapid.IntRange(0, n-1), 0, maxInit).Draw(t, "initial")
+	}
 	if rapid.IntRange(0, 3).Draw(t, "nilitem") == 0 {
 		p.NilItem = 1 + rapid.IntRange(0, n-1).Draw(t, "whichnil")
 	}
@@ -223,7 +255,7 @@ func run(t *testing.T, plan any, keep bool) *simcheck.Outcome {
 var harness = &simcheck.Harness{
 	Property: "C09",
 	Level:    "exploration",
-	Rule: "rapid draws a worker count (1-4), an item graph (children lists with duplicates, self loops and cycles; a quarter of the plans are wide: 1-2 workers, 12-40 items, long initial backlog, fan-out up to 24; one item may be the untyped nil), the initial adds, " +
+	Rule: "rapid draws a worker count (1-4), an item graph (children lists with duplicates, self loops and cycles; a quarter of the plans are wide: 1-2 workers, 12-40 items, long initial backlog, fan-out up to 24; a tenth are bursts: 66-140 items queued at one time, before Do or by the first call of f, then drained; one item may be the untyped nil), the initial adds, " +
 		"yield counts inside f, rendezvous points (a call of f waits until a child it added has started; at most n-1 items may wait), and a schedule (pct with change points / uniform random / sticky); a case is non-trivial when at least two " +
 		"different runner tasks executed f, and distinct by the hash of its full decision trace (task, seam) sequence",
 	Gen:     genPlan,
